@@ -184,7 +184,7 @@ func TestC10Codec(t *testing.T) {
 	rng := NewRng(r.Seed, "c10")
 	shard, shards := shardInfo()
 	rng = rng.Fork(fmt.Sprint("shard", shard))
-	n := pick(150000, 3000000) / shards
+	n := pick(150000, 1000000) / shards
 	if raceEnabled {
 		n /= 25 // checkptr/race pass: same generators, fewer cases
 	}
